@@ -32,10 +32,21 @@ def seeded_table():
     return '\n'.join(rows)
 
 
+def added_table():
+    import ast
+    rows = ['| property | added during the build (beyond the plan in this section) |', '|---|---|']
+    for p in sorted(glob.glob(os.path.join(ROOT, 'vf', 'props', 'C??.py'))):
+        tree = ast.parse(open(p).read())
+        for node in tree.body:
+            if isinstance(node, ast.Assign) and getattr(node.targets[0], 'id', '') == 'LEVEL_ADDED':
+                rows.append('| %s | %s |' % (os.path.basename(p)[:3], ast.literal_eval(node.value).replace('|', '/')))
+    return '\n'.join(rows)
+
+
 def main():
     p = os.path.join(ROOT, 'DESIGN.md')
     s = open(p).read()
-    for name, gen in (('findings', findings_table), ('seeded', seeded_table)):
+    for name, gen in (('findings', findings_table), ('seeded', seeded_table), ('added', added_table)):
         pat = re.compile(r'(<!-- BEGIN %s -->\n).*?(\n<!-- END %s -->)' % (name, name), re.S)
         if not pat.search(s):
             raise SystemExit('marker %s missing in DESIGN.md' % name)
